@@ -738,6 +738,33 @@ func (sc *SpecCtx) call(x *SX) Val {
 	case "bytesEqual", "bytes.Equal":
 		need(2)
 		return sc.bytesEqual(sc.eval(args[0]), sc.eval(args[1]))
+	case "mapHas":
+		// mapHas(m, k): key k is present in map m
+		need(2)
+		m := sc.eval(args[0])
+		mt, ok := vc.under(m.Ty).(*types.Map)
+		if !ok {
+			sc.fail(x, "map expected")
+		}
+		k := sc.coerce(sc.eval(args[1]), mt.Key())
+		pcomp, _, _, _, _ := vc.mapComps(mt)
+		ph := sc.heapTerm(pcomp, vc.compSort[pcomp])
+		return Val{Ty: specBool, T: and(not(eq(m.T, intLit(0))), sel(sel(ph, m.T), k.T))}
+	case "mapUnchanged":
+		// mapUnchanged(m): map m holds exactly the entries it held in the old state
+		need(1)
+		m := sc.eval(args[0])
+		mt, ok := vc.under(m.Ty).(*types.Map)
+		if !ok {
+			sc.fail(x, "map expected")
+		}
+		pcomp, vcomp, vsort, lcomp, lsort := vc.mapComps(mt)
+		psort := vc.compSort[pcomp]
+		var cs []Term
+		for _, c := range [][2]string{{pcomp, psort}, {vcomp, vsort}, {lcomp, lsort}} {
+			cs = append(cs, eq(sel(vc.heapGet(sc.st, c[0], c[1]), m.T), sel(vc.heapGet(sc.old, c[0], c[1]), m.T)))
+		}
+		return Val{Ty: specBool, T: and(cs...)}
 	case "pow2":
 		need(1)
 		a := sc.eval(args[0])
